@@ -110,4 +110,15 @@ func init() {
 		Assumptions: []string{"go-shp's file writer and reader return the shape values they are given (identity on Parts/Points); NewPolyLine/flatten/BBox of go-shp are executed from their real SSA"},
 		Outside:     []string{"shapefile/DBF files, record order and number, all attribute clauses (integers, strings <=50 bytes, floats to 10 decimals, tag/name matching): they run through os files, go-shp's DBF code and reflect over user structs"},
 	})
+	reg(&Property{
+		ID: "C10", Pkgs: []string{"."}, Level: "model_checking",
+		Rule: "one evaluation = one explored path (geometry shape x index of the failing vertex, or SR pair x call history); non-trivial = path ends with all assertions discharged",
+		Opts: []HarnessOpt{{Prefix: "VH_C10_", IfConv: true, MaxUnwind: 40}},
+		Bounds: map[string]string{
+			"geometries": "all eight types, <=2 members x <=2 vertices, collections nested to depth 1 (2 thorough); transformer failing at every vertex index or never",
+			"histories":  "<=3 transformer calls per history over the listed SR pairs",
+		},
+		Assumptions: []string{"libm functions are uninterpreted symbols: determinism/history-independence proved for every interpretation"},
+		Outside:     []string{"numeric accuracy of the transformers (C08/C09)", "larger geometries"},
+	})
 }
